@@ -433,10 +433,34 @@ def run_case(case):
                     e, case, stack, expected, td, sb, ctl, log, probes,
                     label, group)
             else:
-                result, nsteps, maxfiles = _history(
-                    e, case, stack, expected, td, sb, ctl, log, probes,
-                    label, group)
+                # (the cyclic collector is off while the history runs, so
+                # that it is known when it ran: only at the GC steps)
+                # (only for a temp-file view on its own: rows that carry
+                # exception objects - an upstream view under 'inline' - are
+                # cycles of the interpreter's own making)
+                nocycle = not case.get('forked') and gc.isenabled() and \
+                    len(stack) == 1 and stack[0][0] in ('fromdicts-gen',
+                                                       'sort', 'mergesort')
+                if nocycle:
+                    gc.disable()
+                try:
+                    result, nsteps, maxfiles = _history(
+                        e, case, stack, expected, td, sb, ctl, log, probes,
+                        label, group)
+                    # released, the collector not yet run: what petl holds
+                    # is freed by reference counting, its files with it
+                    left0 = _listing(sb.path) if nocycle else []
+                finally:
+                    if nocycle:
+                        gc.enable()
             gc.collect()
+            if result is None and not case.get('enum') and left0 \
+                    and not _listing(sb.path):
+                result = _viol(case, log, 'temp-file-until-collection',
+                               '%s: %d temp files outlived the release of '
+                               'the view and all iterators and went only '
+                               'when the cyclic garbage collector ran: %r'
+                               % (label, len(left0), left0), group)
             if result is None:
                 left = _listing(sb.path)
                 log.add('left', left)
